@@ -6,8 +6,9 @@ decidable certificate checkers `isExactKKT` / `isSCCert`, `descent_finite_termin
 
 Exploration half (this file): every shipped solver stack — ALM over PANOC / ZeroFPR x {LBFGS,
 StructuredLBFGS, Anderson, Noop}, PANTR x NewtonTR, FISTA, and each inner solver stand-alone on the
-box-constrained / unconstrained special case — is run with DEFAULT parameters (only tolerances and
-iteration limits are set) on seeded strongly convex QPs
+box-constrained / unconstrained special case — is run through harness/c02_run.cpp with DEFAULT
+parameters (only tolerances and iteration limits are set; the problem provides Hessian-vector
+products, which NewtonTR's default configuration requires) on seeded strongly convex QPs
 
     minimise ½ xᵀQx + cᵀx   s.t.  Clb ≤ x ≤ Cub,  Dlb ≤ A x ≤ Dub,     Q_s = μ I + BᵀB (dyadic B)
 
@@ -15,10 +16,18 @@ with a strictly feasible point.  Required: status `Converged`, and the *proved* 
 
     μ ‖x − x*‖² ≤ ε ‖x − x*‖₁ + δ ‖y − y*‖₁
 
-evaluated exactly in Fractions, where (x*, y*) comes from an independent exact active-set solve
-(Fractions, started at the feasibility witness, not at the solver's output) and is *certified* by the
-Lean-verified checker (`drv_c02`, op `kkt`, core `Rat`) before it is used; the strong-convexity
-constant μ is certified by the same call (`isSCCert` on the factor B).
+evaluated exactly in Fractions (and again at `Rat` by drv_c02, op `bound`), once with the requested
+tolerances (the property as stated) and once with the residuals the solver reports for the returned
+point (the sharp form: attained with equality on some instances).  (x*, y*) comes from an independent
+exact active-set solve (Fractions, started at the feasibility witness, not at the solver's output) and
+is *certified* by the Lean-verified checker (`drv_c02`, op `kkt`, core `Rat`) before it is used; the
+strong-convexity constant μ is certified by the same call (`isSCCert` on the factor B).
+
+Findings on the unchanged tree (known-findings.json, keys `C02:stepsize-collapse:*`,
+`C02:first-order-iteration-budget:*`): about 1 % of the runs do not return Converged; every one of them
+is recognised by an exact-arithmetic impossibility argument (final step size more than 2¹⁰ below
+1/L_ref) resp. by the budget really having been spent in converging inner solves of a stack without
+curvature information.  Any other non-convergence, and every bound violation, exits 1.
 """
 import math
 import os
@@ -818,9 +827,10 @@ def run_check(argv, tier, par, log):
              'one-sided / free rows, finite / infinite / equal variable bounds, strictly feasible witness, '
              'planted (weakly active = degenerate, LICQ may fail) and natural active sets, infeasible and far '
              'starting points; all ten ALM stacks and all ten inner solvers stand-alone (m = 0, box / '
-             'unconstrained), default parameters, tolerances 1e-4..1e-8; instances = n_quick/n_thorough, '
+             'unconstrained), default parameters, tolerances 1e-4..1e-8, limits 100 outer / 50 000 inner '
+             '(1 000 000 for the stacks without curvature information); instances = 40 (quick) / 400 (thorough), '
              'stacks cycled 3 per instance (quick) / all 10 (thorough); non-trivial = Converged after ≥ 1 '
-             'inner iteration',
+             'inner iteration; evaluations = solver runs, traces_validated = bounds evaluated',
     )
 
 
